@@ -170,6 +170,29 @@ def run(ctx):
     res.site(key, True, {"resolve_calls": len(rc), "rebuild_on_all_paths": bool(rb) and rcr.all_paths_pass(0, rb), "verdict": "ok" if ok else "VIOLATION"})
     if not ok:
         res.find(key, rcr.loc(), "resolve_placeholders_with_custom_resolvers does not resolve every instruction and then rebuild the used-qubit cache on every path", "after resolution get_used_qubits() still lists placeholders")
+    # "custom resolvers replace exactly the placeholders they return values for": a placeholder the resolver declines must
+    # not stop the others from being asked.  The caller's resolvers are handed to every instruction as they are; if they
+    # are consulted beforehand instead, that pre-pass must not short-circuit on the first None
+    key = "K7|every-placeholder-is-asked"
+    fam_ = [rcr] + [g_ for g_ in db.fns if g_.path.startswith(rcr.path + "::{closure")]
+    direct = False
+    for bb, t, c in rcr.calls():
+        if c and callee_path(c) == rp.path and len(t["args"]) >= 3:
+            roots = []
+            for a in t["args"][1:3]:
+                e = fn_expr_operand(rcr, a)
+                ps = []
+                from qv.engine import walk_expr as _we34
+                _we34(e, lambda n: ps.append(n[1]) if n[0] == "param" else None)
+                roots.append(set(ps))
+            direct = roots[0] == {2} and roots[1] == {3}
+    SHORT = ("map_while", "take_while", "scan", "try_for_each", "try_fold", "find_map", "position", "all", "any")
+    short = sorted({c.get("name") for g_ in fam_ for bb, t, c in g_.calls() if c and c.get("name") in SHORT})
+    qmarks = [g_.path.rsplit("::", 1)[-1] for g_ in fam_[1:] if any(c and callee_path(c).endswith("Try>::branch") for bb, t, c in g_.calls())]
+    ok = direct or not (short or qmarks)
+    res.site(key, True, {"callers_resolvers_passed_on_unchanged": direct, "short_circuiting_adaptors": short, "closures_using_question_mark": qmarks, "verdict": "ok" if ok else "VIOLATION"})
+    if not ok:
+        res.find(key, rcr.loc(), "resolve_placeholders_with_custom_resolvers consults the caller's resolvers through %s: the first placeholder a resolver declines stops every later placeholder from being resolved" % (short + qmarks), "a custom qubit resolver that knows q2 but not q1, in a body where q1 appears first: q2 stays a placeholder")
     # identity of placeholders: two placeholders are the same iff they share the Arc allocation.  `address()` (used by
     # Hash / Ord / Eq) must be the address of the allocation itself, never something derived from the contents (an empty
     # String has no buffer: all empty-based label placeholders would collapse into one)
